@@ -151,6 +151,14 @@ def deliver (s : State) (ms : List Msg) : State × Res :=
     | none => (s1, .execFailed)           -- ante effects (fees, sequences) persist
     | some s2 => (s2, .ok)
 
+/-- where the contract creations of a transaction put their code: `(signer, n)` stands for go-ethereum's
+    `CreateAddress(signer, n)`. `ApplyEvmMsg` pins the StateDB nonce of the sender to the MESSAGE's nonce right before the
+    interpreter runs (`SetNonce(msg.From(), msg.Nonce())` — fact `applyEvmMsgNonceAndVm`), and `evm.Create` derives the new address from
+    the caller's StateDB nonce: whatever the ante handler did to the account sequence for the later messages of the same transaction,
+    a creation lands at the address of its own nonce. -/
+def deployments (ms : List Msg) : List (String × Nat) :=
+  (ms.filter (fun m => m.kind = .create)).map (fun m => (m.sender, m.nonce))
+
 /-! ### line protocol -/
 
 structure View where
